@@ -271,6 +271,25 @@ def explore(rng, transport, profile, flavor, runner_cls, max_cmds=70):
         elif pk == 'read':
             if closed:
                 do(['w', 'eof'])
+            elif fault_budget and info.get('_eof_next'):
+                # ... and now the peer is gone, part of a message (often with its complete start tag) still undelivered in the buffer
+                fault_budget -= 1
+                info['faults'].append('eof')
+                info['eof_mid_message'] = True
+                del srv.out[:]
+                do(['w', 'eof'])
+            elif fault_budget and len(srv.out) > 12 and rng.random() < 0.25:
+                # the peer goes away in the MIDDLE of a message: hand over a proper prefix of what is pending (no terminator in it) ...
+                n = len(srv.out)
+                term = bytes(srv.out).find(b'\n##\n' if srv.base11 else DELIM10)
+                hi = (term if term > 0 else n) - 1
+                k = rng.randint(max(1, min(hi, int(hi * 0.5))), max(1, hi))
+                d = bytes(srv.out[:k])
+                del srv.out[:k]
+                info['_eof_next'] = True
+                texts = srv.sent_texts[info.setdefault('_classified', 0):]
+                info['_classified'] = len(srv.sent_texts)
+                do(['w', d.hex(), list(texts) + [t.strip() for t in texts if t.strip() != t]])
             elif fault_budget and len(srv.out) > 0 and rng.random() < 0.2 and any((b & 0xC0) == 0x80 for b in srv.out):
                 # the peer goes away in the middle of a multi-byte character: hand over the bytes up to there, then EOF
                 i = next(k for k, b in enumerate(srv.out) if (b & 0xC0) == 0x80)
